@@ -2,3 +2,5 @@ import ThriftVerif.Props.C05
 #print axioms Props.C05.tables_match_spec
 #print axioms Props.C05.typedef_fixpoint_complete
 #print axioms Props.C05.resolve_category
+#print axioms Props.C05.used_iff_referenced
+#print axioms Props.C05.deref_total
